@@ -6,10 +6,17 @@ Process death = any prefix of the operation's syscall trace (page cache intact).
 namespace DSV.Fs
 
 /-- **crash_pre** — for a commit writing ANY number of files, at every prefix of its syscall trace that does not contain the
-pointer's rename the pointer is exactly what it was: the table is in the pre-state. -/
+pointer's rename the pointer path is what it was — present, content, content-durability and directory unchanged (a directory
+fsync may only make its old entry MORE durable): the table is in the pre-state. -/
 theorem crash_pre (files : List W) (hint : W) (s : St) (hwf : WfCommit files hint s) (k : Nat)
     (hk : k ≤ 5 * files.length + 3) :
-    run s ((commitTrace files hint).take k) hint.fin = s hint.fin := crash_pre' files hint s hwf k hk
+    SameUpToEntry (run s ((commitTrace files hint).take k) hint.fin) (s hint.fin) := crash_pre_fields' files hint s hwf k hk
+
+/-- the literal "nothing at all changed" is false (regression of a too-strong statement kept honest): a file's directory
+fsync persists the OLD pointer entry when they share a directory -/
+theorem crash_pre_full_equality_refuted :
+    ¬ (∀ files hint s, WfCommit files hint s → ∀ k, k ≤ 5 * files.length + 3 →
+        run s ((commitTrace files hint).take k) hint.fin = s hint.fin) := crash_pre_counterexample
 
 /-- **crash_foreign_untouched** — at every prefix, every path the commit does not own (all files of all earlier snapshots,
 other transactions' files) is as visible as before: the pre-state stays fully readable, and so does everything older in
